@@ -21,7 +21,7 @@ import time
 
 ROOT = os.path.dirname(os.path.dirname(os.path.abspath(__file__)))
 PY = os.path.join(ROOT, '.venv', 'bin', 'python')
-ENV = dict(os.environ, PYTHONPATH=ROOT, PYTHONWARNINGS='ignore', PYTHONDONTWRITEBYTECODE='1',
+ENV = dict(os.environ, PYTHONPATH=(os.environ['VF_EXTRA_PATH'] + ':' if os.environ.get('VF_EXTRA_PATH') else '') + ROOT, PYTHONWARNINGS='ignore', PYTHONDONTWRITEBYTECODE='1',
            PYTHONHASHSEED='0')
 
 
